@@ -14,6 +14,15 @@ Definition select_ok_gen {T} (Op : numops T) (arr : list T) (rank : Z) (draws : 
 
 Definition check_gen (c : case) : bool :=
   match c with
+  (* selSPEA2: individuals = (fitness.values, fitness.wvalues) *)
+  | CSpea2Q vals weights k draws obs =>
+      let v := map qxs vals in
+      let '(r, rest) := gen_selSPEA2 qx_ops (combine v (wvalues_of qx_ops (qxs weights) v)) k draws in
+      nl_eqb r obs && match rest with [] => true | _ => false end
+  | CSpea2F vals weights k draws obs =>
+      let wv := wvalues_of f_ops weights vals in
+      let '(r, rest) := gen_selSPEA2 f_ops (combine (values_of f_ops weights wv) wv) k draws in
+      nl_eqb r obs && match rest with [] => true | _ => false end
   | CSelectQ arr rank draws obs => select_ok_gen qx_ops (map QF arr) rank draws (QF obs)
   | CSelectF arr rank draws obs => select_ok_gen f_ops arr rank draws obs
   | _ => true
